@@ -1,5 +1,6 @@
 import HdVerif.Model.Bits
 import HdVerif.Generated.T1
+import HdVerif.Generated.T1b
 import HdVerif.Generated.T4
 import HdVerif.Generated.T11
 import HdVerif.Generated.T11b
@@ -26,24 +27,61 @@ def memRaw (pixelData : List Nat) (rows cols samples bits : Int) (pi : String) (
   slice pixelData s e
 
 /-- `decode_frame` for native 1-bit data: unpack, cut the translated bit slice, `reshape`
-    (which fails unless exactly rows*cols bits are left) -/
+    (which fails unless exactly rows*cols*samples bits are left) -/
 def decodeBits (raw : List Nat) (rows cols samples : Int) (idx : Int) : Except ErrKind (List Bool) := do
   let (lo, hi) ← bitSlice idx rows cols samples
   let bits ← slice (unpack raw) lo hi
-  if (bits.length : Int) = rows * cols then .ok bits else .error .value
+  if (bits.length : Int) = rows * cols * samples then .ok bits else .error .value
+
+/-! ### The call skeleton of `get_stored_frame` / `get_stored_frames` (regenerated, target T1b)
+
+Which expressions reach `_standardize_frame_index`, `get_raw_frame` (which standardises its arguments again),
+`decode_frame(index=…)` and the subscript of the cached `pixel_array` is read off the current AST for the single and
+for the batch method separately; the access functions below are *defined through* those pieces, so "batch = single"
+and "cached = decoded" are statements about what the source says now (audit A, C05-1/C05-2). -/
+
+structure Skel where
+  stdArgs : Int → Bool → Int → Except ErrKind (Int × Bool)
+  rawArgs : Int → Bool → Int → Except ErrKind (Int × Bool)
+  decodeIndex : Int → Bool → Int → Except ErrKind Int
+  cacheIndex : Int → Bool → Int → Except ErrKind Int
+
+def singleSkel : Skel := ⟨singleStdArgs, singleRawArgs, singleDecodeIndex, singleCacheIndex⟩
+def batchSkel : Skel := ⟨batchStdArgs, batchRawArgs, batchDecodeIndex, batchCacheIndex⟩
+
+/-- the first statement of both methods: `frame_index = self._standardize_frame_index(…)`; `frame_index` is not bound yet
+    when the arguments are evaluated (the generated definition takes it as a parameter only for uniformity) -/
+def Skel.index (sk : Skel) (n k : Int) (asIndex : Bool) : Except ErrKind Int := do
+  let (a, b) ← sk.stdArgs k asIndex 0
+  stdFrameIndex a b n
+
+/-- one stored 1-bit frame through the un-cached branch; `rawFn` = in-memory byte range or lazy file read -/
+def Skel.frameBits (sk : Skel) (rawFn : Int → Except ErrKind (List Nat)) (rows cols samples n k : Int) (asIndex : Bool) :
+    Except ErrKind (List Bool) := do
+  let idx ← sk.index n k asIndex
+  let (rk, rai) ← sk.rawArgs k asIndex idx
+  let ridx ← stdFrameIndex rk rai n          -- `get_raw_frame` standardises what it is handed
+  let raw ← rawFn ridx
+  let didx ← sk.decodeIndex k asIndex idx
+  decodeBits raw rows cols samples didx
+
+/-- one stored frame of >= 8 bits as bytes (decoding bytes to numbers is numpy's and index-independent) -/
+def Skel.frameBytes (sk : Skel) (rawFn : Int → Except ErrKind (List Nat)) (n k : Int) (asIndex : Bool) :
+    Except ErrKind (List Nat) := do
+  let idx ← sk.index n k asIndex
+  let (rk, rai) ← sk.rawArgs k asIndex idx
+  let ridx ← stdFrameIndex rk rai n
+  rawFn ridx
 
 /-- `get_stored_frame` on an in-memory native 1-bit image -/
 def memFrameBits (pixelData : List Nat) (rows cols samples n : Int) (k : Int) (asIndex : Bool) :
-    Except ErrKind (List Bool) := do
-  let idx ← stdFrameIndex k asIndex n
-  let raw ← memRaw pixelData rows cols samples 1 "MONOCHROME2" idx
-  decodeBits raw rows cols samples idx
+    Except ErrKind (List Bool) :=
+  singleSkel.frameBits (memRaw pixelData rows cols samples 1 "MONOCHROME2") rows cols samples n k asIndex
 
 /-- `get_stored_frame` on an in-memory native image with ≥ 8 bits: the frame's bytes -/
 def memFrameBytes (pixelData : List Nat) (rows cols samples bits n : Int) (pi : String) (k : Int)
-    (asIndex : Bool) : Except ErrKind (List Nat) := do
-  let idx ← stdFrameIndex k asIndex n
-  memRaw pixelData rows cols samples bits pi idx
+    (asIndex : Bool) : Except ErrKind (List Nat) :=
+  singleSkel.frameBytes (memRaw pixelData rows cols samples bits pi) n k asIndex
 
 /-- `ImageFileReader.read_frame_raw` on native data: guard, offset table entry, read length.
     Reading past the end of the file returns fewer bytes, exactly like `List.take`. -/
@@ -57,21 +95,68 @@ def lazyRaw (pixelData : List Nat) (rows cols samples bits n : Int) (pi : String
   let raw ← slice pixelData off (off + len)
   if raw.length = 0 then .error .other else .ok raw
 
-/-- lazily read and decode a 1-bit native frame (via `Image.get_stored_frame`, which validates the number first) -/
+/-- lazily read and decode a 1-bit native frame (`Image.get_stored_frame` on a lazily read image: `get_raw_frame` hands
+    the standardised index to the file reader) -/
 def lazyFrameBits (pixelData : List Nat) (rows cols samples n : Int) (k : Int) (asIndex : Bool) :
-    Except ErrKind (List Bool) := do
-  let idx ← stdFrameIndex k asIndex n
-  let raw ← lazyRaw pixelData rows cols samples 1 n "MONOCHROME2" idx
-  decodeBits raw rows cols samples idx
+    Except ErrKind (List Bool) :=
+  singleSkel.frameBits (lazyRaw pixelData rows cols samples 1 n "MONOCHROME2") rows cols samples n k asIndex
 
 def lazyFrameBytes (pixelData : List Nat) (rows cols samples bits n : Int) (pi : String) (k : Int)
-    (asIndex : Bool) : Except ErrKind (List Nat) := do
-  let idx ← stdFrameIndex k asIndex n
-  lazyRaw pixelData rows cols samples bits n pi idx
+    (asIndex : Bool) : Except ErrKind (List Nat) :=
+  singleSkel.frameBytes (lazyRaw pixelData rows cols samples bits n pi) n k asIndex
 
-/-- batch access is a map over single access, failing at the first bad number -/
-def memFramesBits (pixelData : List Nat) (rows cols samples n : Int) (ks : List Int) (asIndex : Bool) :
-    Except ErrKind (List (List Bool)) :=
-  ks.mapM (fun k => memFrameBits pixelData rows cols samples n k asIndex)
+/-- the same single frame as the BATCH method fetches it (its own copy of the call skeleton) -/
+def batchOneBits (pixelData : List Nat) (rows cols samples n : Int) (k : Int) (asIndex : Bool) :
+    Except ErrKind (List Bool) :=
+  batchSkel.frameBits (memRaw pixelData rows cols samples 1 "MONOCHROME2") rows cols samples n k asIndex
+
+/-- Python `range(a, b)` as a list -/
+def pyRange (a b : Int) : List Int := (List.range (b - a).toNat).map (fun (i : Nat) => a + (i : Int))
+
+/-- `get_stored_frames(frame_numbers, as_indices)` (un-cached, 1-bit native): `None` means the translated default range;
+    the frames are stacked with `np.stack`, which refuses an empty list -/
+def memFramesBits (pixelData : List Nat) (rows cols samples n : Int) (ks : Option (List Int)) (asIndex : Bool) :
+    Except ErrKind (List (List Bool)) := do
+  let nums ← match ks with
+    | some l => pure l
+    | none => do
+      let (a, b) ← batchDefaultRange asIndex n
+      pure (pyRange a b)
+  let frames ← nums.mapM (fun k => batchOneBits pixelData rows cols samples n k asIndex)
+  if frames.isEmpty then .error .value else .ok frames
+
+/-- Python/numpy subscript with one integer: negative values count from the end, out of range is an IndexError -/
+def pyIndex {α} (l : List α) (i : Int) : Except ErrKind α :=
+  let j := if i < 0 then i + l.length else i
+  if j < 0 then .error .index else
+  match l[j.toNat]? with
+  | some x => .ok x
+  | none => .error .index
+
+/-- the cached-pixel-array branch of both methods: the whole array for a single-frame image, else `pixel_array[…]`
+    with the translated subscript expression -/
+def Skel.cached {α} (sk : Skel) (frames : List α) (whole : α) (k : Int) (asIndex : Bool) : Except ErrKind α := do
+  let n : Int := frames.length
+  let idx ← sk.index n k asIndex
+  if n = 1 then .ok whole else do
+    let ci ← sk.cacheIndex k asIndex idx
+    pyIndex frames ci
+
+/-- cached batch -/
+def cachedFrames {α} (frames : List α) (whole : α) (ks : Option (List Int)) (asIndex : Bool) : Except ErrKind (List α) := do
+  let n : Int := frames.length
+  let nums ← match ks with
+    | some l => pure l
+    | none => do
+      let (a, b) ← batchDefaultRange asIndex n
+      pure (pyRange a b)
+  let out ← nums.mapM (fun k => batchSkel.cached frames whole k asIndex)
+  if out.isEmpty then .error .value else .ok out
+
+/-- bytes per frame as the in-memory path computes them: `bits * n_pixels / 8` with
+    `n_pixels = rows*cols*2` for YBR_FULL_422 and `rows*cols*samples` otherwise -/
+def frameBytes (rows cols samples bits : Nat) (pi : String) : Nat :=
+  bits * (if pi = "YBR_FULL_422" then rows * cols * 2 else rows * cols * samples) / 8
+
 
 end HdVerif.FrameAccess
